@@ -56,13 +56,43 @@ def parse_decl(line):
 def gen_decl(rng, mode="valid", profile=None):
     """mode: valid | malformed.  profile tunes shape: 'dag' (default), 'zero' (many input-free providers),
     'ctx' (context.Context required at various depths), 'wide' (many arguments)."""
-    profile = profile or rng.choice(['dag', 'dag', 'dag', 'zero', 'ctx', 'wide', 'multi', 'shared', 'shared'])
+    profile = profile or (rng.choice(['dag', 'dag', 'dag', 'zero', 'ctx', 'wide', 'multi', 'shared', 'shared']) if not rng.chance(0.04) else 'huge')
     cnt = [0]
     def mk():
         cnt[0] += 1
         return cnt[0]
-    if profile == 'shared' and mode != "valid":
+    if profile in ('shared', 'huge') and mode != "valid":
         profile = 'dag'
+    if profile == 'huge':
+        # many providers ready at once / many goroutines: 12-30 loaders (mostly Async; input-free, or fed by one
+        # synchronous provider that runs on the injector's own goroutine), a few groupers over them, one root
+        argt = [mk()]
+        provs = []
+        cfg = None
+        if rng.chance(0.6):
+            cfg = mk()
+            provs.append(dict(kind=0, a=0, e=int(rng.chance(0.2)), req=[argt[0]] if rng.chance(0.3) else [], groups=[[cfg]], sty=0, fields=[]))
+        loaders = []
+        for _ in range(rng.randint(12, 30)):
+            t = mk()
+            req = [cfg] if (cfg is not None and rng.chance(0.5)) else []
+            provs.append(dict(kind=0, a=int(rng.chance(0.85)), e=int(rng.chance(0.1)), req=req, groups=[[t]], sty=0, fields=[]))
+            loaders.append(t)
+        mids = []
+        rest = list(loaders)
+        rng.shuffle(rest)
+        for _ in range(rng.randint(2, 5)):
+            k = rng.randint(1, 3)
+            take, rest = rest[:k], rest[k:]
+            if not take:
+                break
+            t = mk()
+            provs.append(dict(kind=0, a=int(rng.chance(0.6)), e=0, req=take, groups=[[t]], sty=0, fields=[]))
+            mids.append(t)
+        root = mk()
+        provs.append(dict(kind=0, a=0, e=int(rng.chance(0.2)), req=mids + rest, groups=[[root]], sty=0, fields=[]))
+        rng.shuffle(provs)
+        return fmt_decl(root, provs)
     if profile == 'shared':
         # diamonds: a few (mostly Async, sometimes ctx-taking / fallible) producers, each consumed by several consumers
         # with mixed Async/sync marking, so that the same value is awaited from the main flow and from goroutines
